@@ -50,8 +50,10 @@ HashCoherent(a, b, hashes_equal) == (a = b) => hashes_equal
    and in the judge, which folds Eff over recorded histories).  Results are
    written to x (y is the right operand); swap / copy move values between the
    registers so that every pair of computed values meets. *)
-BaseOp == [op |-> "null", i |-> 0, b |-> FALSE, s |-> <<>>]
+BaseOp == [op |-> "null", i |-> 0, j |-> 0, b |-> FALSE, s |-> <<>>]
 OpE(name, i) == [BaseOp EXCEPT !.op = name, !.i = i]
+OpEE(name, i, j) == [BaseOp EXCEPT !.op = name, !.i = i, !.j = j]
+OpEEB(name, i, j, b) == [BaseOp EXCEPT !.op = name, !.i = i, !.j = j, !.b = b]
 OpEB(name, i, b) == [BaseOp EXCEPT !.op = name, !.i = i, !.b = b]
 Op0(name) == [BaseOp EXCEPT !.op = name]
 
@@ -62,10 +64,21 @@ NullaryOps == {"not", "swap", "copy", "null", "selfora", "selfanda", "selfxora"}
 (* operations with a set-valued argument (driven by the harness, not enumerated
    by the model checker): initializer list and init *)
 ListOps == {"ilist", "init"}
+(* operator[] returns "a reference to a mask value (a reference to a boolean,
+   basically)" (object_decl.hpp), and the module documentation says a bitfield can
+   be treated "like a std::map<Enum,bool>".  Assigning one such reference to another
+   therefore assigns the BOOLEAN it refers to, as it does for bool& and for
+   map<Enum,bool>::operator[]:
+     idxcopy    x[i] = x[j]          idxcopy_y  x[i] = y[j]
+     chain      x[i] = x[j] = b      (right to left; both end up with b) *)
+ProxyOps == {"idxcopy", "idxcopy_y"}
+ProxyChainOps == {"chain"}
 
 Ops == {OpE(o, i) : o \in ElemOps, i \in Elems}
        \cup {OpEB(o, i, b) : o \in ElemBoolOps, i \in Elems, b \in BOOLEAN}
        \cup {Op0(o) : o \in BinOps \cup NullaryOps}
+       \cup {OpEE(o, i, j) : o \in ProxyOps, i \in Elems, j \in Elems}
+       \cup {OpEEB(o, i, j, b) : o \in ProxyChainOps, i \in Elems, j \in Elems, b \in BOOLEAN}
 (* one representative per code path: idx/ore/orae go through the same proxy
    assignment as set, the non-assigning binary operators are the assigning ones
    applied to a copy, and x op= x is  copy; op  - used by the model checker for the
@@ -75,8 +88,9 @@ CoreOps == {OpEB("set", i, b) : i \in Elems, b \in BOOLEAN}
 
 (* precondition of the C++ API: enumerators are in range *)
 Pre(a) ==
-  /\ a.op \in ElemOps \cup ElemBoolOps \cup BinOps \cup NullaryOps \cup ListOps
-  /\ a.op \in ElemOps \cup ElemBoolOps => a.i \in Elems
+  /\ a.op \in ElemOps \cup ElemBoolOps \cup BinOps \cup NullaryOps \cup ListOps \cup ProxyOps \cup ProxyChainOps
+  /\ a.op \in ElemOps \cup ElemBoolOps \cup ProxyOps \cup ProxyChainOps => a.i \in Elems
+  /\ a.op \in ProxyOps \cup ProxyChainOps => a.j \in Elems
   /\ a.op \in ListOps => SeqToSet(a.s) \subseteq Elems
 
 R(nx, ny) == [x |-> nx, y |-> ny]
@@ -95,6 +109,30 @@ Eff(vx, vy, a) ==
     [] a.op = "copy" -> R(vx, vx)
     [] a.op = "null" -> R(Null, vy)
     [] a.op \in {"ilist", "init"} -> R(FromList(a.s), vy)
+    [] a.op = "idxcopy" -> R(SetBit(vx, a.i, Get(vx, a.j)), vy)
+    [] a.op = "idxcopy_y" -> R(SetBit(vx, a.i, Get(vy, a.j)), vy)
+    [] a.op = "chain" -> R(SetBit(SetBit(vx, a.j, a.b), a.i, a.b), vy)
+
+(* ---------------------------------------------------------- other observers *)
+(* underlying_value (single-word bitfields; test/container/bitfield/underlying_value.cpp:
+   enumerator e is the bit shifted_mask(e) = 2^e of the word) and the constructor
+   from the word array *)
+RECURSIVE SumPow2(_)
+SumPow2(s) == IF s = {} THEN 0 ELSE LET e == CHOOSE e \in s : TRUE IN 2 ^ e + SumPow2(s \ {e})
+Underlying(s) == SumPow2(s)
+FromWord(v) == {e \in Elems : (v \div (2 ^ e)) % 2 = 1}
+
+(* operator<< (output.hpp "Outputs a bitfield"; format fixed by
+   test/container/bitfield/output.cpp: "{}", "{test3}", "{test1,test2}"): the names of the
+   contained enumerators in enumerator order, comma separated, in braces.  As code
+   points; names[e+1] is the enum_::to_string of enumerator e, supplied by the caller. *)
+RECURSIVE JoinNames(_, _, _)
+JoinNames(s, e, names) ==
+  IF e >= N THEN <<>>
+  ELSE IF e \in s
+       THEN names[e + 1] \o (IF \E f \in s : f > e THEN <<44>> ELSE <<>>) \o JoinNames(s, e + 1, names)
+       ELSE JoinNames(s, e + 1, names)
+Output(s, names) == <<123>> \o JoinNames(s, 0, names) \o <<125>>
 
 (* ------------------------------------------------------------ laws (theorems
    of set algebra that TLC evaluates in every reachable state; they pin the
@@ -112,5 +150,8 @@ LawsOf(x, y) ==
   /\ \A i \in Elems : \A b \in BOOLEAN : SetBit(x, i, b) \ {i} = x \ {i}    \* frame: other bits untouched
   /\ InitBy([i \in Elems |-> Get(x, i)]) = x
   /\ Cardinality(Not(x)) = N - Cardinality(x)
+  /\ (Underlying(x) = Underlying(y)) = (x = y)
+  /\ FromWord(Underlying(x)) = x
+  /\ Underlying(Or(x, y)) + Underlying(And(x, y)) = Underlying(x) + Underlying(y)
 
 =============================================================================
